@@ -76,9 +76,10 @@ Proof. split; [apply full_exploration_blind|split; [apply captures_only_blind|ap
 
 (** the same game under two seeds *)
 Theorem C18_same_game pos turn np fm ms h1 b1 h2 b2 : wf_b pos turn = true -> (turn = 0 \/ turn = 1) ->
+  np <= max_int ->
   played_board z1 pos turn np fm ms h1 b1 -> played_board z2 pos turn np fm ms h2 b2 ->
   zrel z1 z2 (h1, b1) (h2, b2).
-Proof. intros Hw Ht. exact (played_zrel z1 z2 Hz1 Hz2 pos turn np fm Hw Ht ms h1 b1 h2 b2). Qed.
+Proof. intros Hw Ht Hnp. exact (played_zrel z1 z2 Hz1 Hz2 pos turn np fm Hw Ht Hnp ms h1 b1 h2 b2). Qed.
 End C18.
 
 (** 4 *)
